@@ -75,6 +75,179 @@ def _load_repo():
     return repo
 
 
+# ---------------------------------------------------------------------------
+# the term evaluator with the numpy / call idioms the coordinate code may be written in (all of them abstract: one symbolic
+# element stands for every element of an array; nothing is executed)
+_UFUNC1 = set(symx.UNARY) | {"deg2rad", "rad2deg", "radians", "degrees", "negative"}
+_UFUNC2 = {"add", "subtract", "multiply", "divide", "true_divide", "power", "mod", "fmod", "arctan2", "minimum", "maximum", "fmin", "fmax"}
+
+
+def _np_full(env, node):
+    d = dotted_name(node)
+    if not d or d.split(".")[0] in env.vars:
+        return None
+    full = env.se.repo.resolve_name(env.mod, d)
+    return full if full.startswith(("numpy.", "math.")) else None
+
+
+class _Env(symx.Env):
+    """symx.Env plus
+      * a numpy function used as a *value* (entry of a dispatch table, local alias) and called through that value;
+      * ufunc(..., out=x, where=mask): the masked in-place update  x = Piecewise((ufunc(...), mask), (x, True));
+      * package helpers taking *args that update those arrays in place;
+      * hasattr / numpy.isscalar decided by the assumption the rule states (SymEval.assume 'call:<name>')."""
+
+    def ev(self, e, stmt_level=False):
+        if isinstance(e, ast.Attribute) and norm(e) not in self.vars:
+            try:
+                return super().ev(e, stmt_level)
+            except symx.Unsupported:
+                full = _np_full(self, e)
+                if full and full.rsplit(".", 1)[1] in (_UFUNC1 | _UFUNC2):
+                    return symx.Opaque(full)
+                raise
+        return super().ev(e, stmt_level)
+
+    def _np_callee(self, full, at):
+        """an expression that names the numpy function `full` in this module (through its imports), or None"""
+        head, fn = full.rsplit(".", 1)
+        for local, target in self.mod.imports.items():
+            if target == full and local not in self.vars:
+                return ast.copy_location(ast.Name(id=local, ctx=ast.Load()), at)
+        for local, target in self.mod.imports.items():
+            if target == head and local not in self.vars:
+                return ast.copy_location(ast.Attribute(value=ast.copy_location(ast.Name(id=local, ctx=ast.Load()), at), attr=fn, ctx=ast.Load()), at)
+        return None
+
+    def call(self, c, stmt_level=False):
+        f = c.func
+        nm = call_name(c)
+        # a numpy function reached through a local (entry of a dispatch table): the call is the call of that function
+        if isinstance(f, ast.Name) and isinstance(self.vars.get(f.id), symx.Opaque) and self.vars[f.id].what.startswith(("numpy.", "math.")):
+            callee = self._np_callee(self.vars[f.id].what, c)
+            if callee is None:
+                raise symx.Unsupported("symx: call through `%s` = %s at %s" % (f.id, self.vars[f.id].what, self.where(c)))
+            return self.call(ast.copy_location(ast.Call(func=callee, args=c.args, keywords=c.keywords), c), stmt_level)
+        if nm in ("hasattr", "isscalar") and ("call:" + nm) in self.se.assume:
+            return self.se.assume["call:" + nm]
+        w = kwarg(c, "where")
+        if w is not None and _np_full(self, f):
+            return self._masked_ufunc(c, w)
+        d = dotted_name(f)
+        full = self.se.repo.resolve_name(self.mod, d) if d else None
+        if full and self.se.repo.has(full) and full not in self.se.opaque and self.depth < self.se.inline_depth:
+            tgt = self.se.repo.func(full)
+            if tgt.qualname not in self.se.opaque and any(p.startswith("*") and not p.startswith("**") for p in tgt.params) \
+                    and not any(isinstance(a, ast.Starred) for a in c.args) and all(k.arg for k in c.keywords):
+                return self._call_varargs(c, tgt)
+        return super().call(c, stmt_level)
+
+    def _masked_ufunc(self, c, w):
+        nm = call_name(c)
+        arity = 1 if nm in _UFUNC1 else 2 if nm in _UFUNC2 else None
+        if arity is None or len(c.args) < arity:
+            raise symx.Unsupported("symx: `%s` with where= at %s" % (nm, self.where(c)))
+        out = c.args[arity] if len(c.args) > arity else kwarg(c, "out")
+        m = self.ev(w)                               # the mask is taken on the operands as they are before the update
+        plain = ast.copy_location(ast.Call(func=c.func, args=c.args[:arity], keywords=[k for k in c.keywords if k.arg not in ("where", "out")]), c)
+        if m is True:
+            r = super().call(plain)
+            if out is not None:
+                self.assign(out, r, c)
+            return r
+        if m is False and out is not None:
+            return self.ev(symx._load(out))
+        if not isinstance(m, symx.Mask) or out is None:
+            # without out= the unselected elements are uninitialised
+            raise symx.Unsupported("symx: `%s` with where= but no out=, or a non-mask condition, at %s" % (nm, self.where(c)))
+        old = self.ev(symx._load(out))
+        r = super().call(plain)
+        if not (symx._is_expr(r) and symx._is_expr(old)):
+            raise symx.Unsupported("symx: masked `%s` on non-scalar-like values at %s" % (nm, self.where(c)))
+        new = sp.Piecewise((symx._as_expr(r), m.cond), (symx._as_expr(old), True))
+        self.assign(out, new, c)
+        return new
+
+    def _call_varargs(self, c, tgt):
+        """inline a package helper  def h(a, b, *rest)  called with plain positional / keyword arguments; arrays passed through *rest
+        that the helper updates in place (loop over rest with out= ufuncs / augmented assignment) are updated in the caller"""
+        named = [p for p in tgt.params if not p.startswith("*")]
+        star = [p for p in tgt.params if p.startswith("*") and not p.startswith("**")][0][1:]
+        kwonly = [a.arg for a in tgt.node.args.kwonlyargs]
+        pos = [p for p in named if p not in kwonly]
+        vals = [self.ev(a) for a in c.args]
+        bind = dict(zip(pos, vals))
+        rest = list(vals[len(pos):])
+        bind[star] = list(rest)
+        for k in c.keywords:
+            bind[k.arg] = self.ev(k.value)
+        env = type(self)(self.se, tgt, tgt.module, dict(bind), {}, depth=self.depth + 1)
+        for p in tgt.params:
+            pn = p.lstrip("*")
+            if pn not in env.vars and pn in tgt.defaults:
+                env.vars[pn] = env.ev(tgt.defaults[pn])
+        # the loop variable over *rest must only be updated in place (never re-bound by a plain assignment)
+        for x in ast.walk(tgt.node):
+            if isinstance(x, ast.For) and isinstance(x.iter, ast.Name) and x.iter.id == star:
+                tn = {t.id for t in ast.walk(x.target) if isinstance(t, ast.Name)}
+                for y in ast.walk(x):
+                    if isinstance(y, (ast.Assign, ast.AnnAssign)):
+                        for t_ in (y.targets if isinstance(y, ast.Assign) else [y.target]):
+                            if not isinstance(t_, ast.Subscript) and any(isinstance(t, ast.Name) and t.id in tn for t in ast.walk(t_)):
+                                raise symx.Unsupported("symx: loop variable over *%s re-bound in %s at %s" % (star, tgt.name, self.where(c)))
+        rets = env.exec_body(tgt.node.body, sp.true)
+        env.finish_returns(rets)
+        after = env.vars.get(star)
+        if isinstance(after, list) and len(after) == len(rest):
+            for a, old, new in zip(c.args[len(pos):], rest, after):
+                if isinstance(a, ast.Name) and not symx._same(old, new) and symx._is_expr(new):
+                    self.vars[a.id] = new
+        for p, a in zip(pos, c.args):
+            if isinstance(a, ast.Name) and p in env.vars and not symx._same(env.vars[p], bind.get(p)) and symx._is_expr(env.vars[p]) \
+                    and p in symx._inplace_params(tgt):
+                self.vars[a.id] = env.vars[p]
+        return env.result
+
+
+class _Eval(symx.SymEval):
+    """SymEval running on _Env"""
+
+    def module_const(self, mod, name, depth=0):
+        v = super().module_const(mod, name, depth)
+        if v is None and name in mod.consts:
+            key = ("_Env", mod.name, name)
+            if key not in self._const_cache:
+                self._const_cache[key] = None
+                try:
+                    self._const_cache[key] = _Env(self, None, mod, {}, {}).ev(mod.consts[name])
+                except symx.Unsupported:
+                    pass
+            v = self._const_cache[key]
+        return v
+
+    def run(self, fi, args, flags=None, depth=0, pins=None):
+        flags = dict(flags or {})
+        env = _Env(self, fi, fi.module, dict(args), flags, depth=depth)
+        env.pins = dict(pins or {})
+        names = [p.lstrip("*") for p in fi.params]
+        for p in fi.params:
+            pn = p.lstrip("*")
+            if pn not in env.vars:
+                if pn in fi.defaults:
+                    env.vars[pn] = env.ev(fi.defaults[pn])
+                elif p.startswith("**"):
+                    env.vars[pn] = {}
+                elif p.startswith("*"):
+                    env.vars[pn] = ()
+        for k, v in flags.items():
+            if k in names:
+                env.vars[k] = v
+        rets = env.exec_body(fi.node.body, sp.true)
+        env.finish_returns(rets)
+        self.last_env = env
+        return env.result
+
+
 def run(chk):
     repo = _load_repo()
     chk.set_templates(repo, semantic=SEMANTIC)
@@ -134,35 +307,93 @@ def _reachable_code(repo, fi, depth=3):
     return out
 
 
+def _literal_value(mod, e):
+    """30-digit value of a (possibly negated) numeric literal, read from the source text; None for anything else"""
+    neg = isinstance(e, ast.UnaryOp) and isinstance(e.op, ast.USub)
+    lit = e.operand if neg else e
+    if not (isinstance(lit, ast.Constant) and isinstance(lit.value, (int, float)) and not isinstance(lit.value, bool)):
+        return None
+    txt = ast.get_source_segment(mod.src, lit) or repr(lit.value)
+    try:
+        v = mp.mpf(txt.replace("_", ""))
+    except Exception:
+        v = mp.mpf(repr(lit.value))
+    return -v if neg else v
+
+
 def _literal_tables(repo, fi, n=6):
-    """every n-entry sequence of numeric literals (list or tuple display) in the code euler reaches, read at 30 digits from the source text"""
+    """every sequence of numeric literals (list or tuple display) in the code euler reaches, read at 30 digits from the source text;
+    n: only sequences of that length (None: every length, and every single numeric literal as a sequence of one)"""
     seqs = []
     for mod, node in _reachable_code(repo, fi):
+        inseq = set()
         for x in ast.walk(node):
-            if isinstance(x, (ast.List, ast.Tuple)) and len(x.elts) == n:
-                vals = []
-                for e in x.elts:
-                    neg = isinstance(e, ast.UnaryOp) and isinstance(e.op, ast.USub)
-                    lit = e.operand if neg else e
-                    if not (isinstance(lit, ast.Constant) and isinstance(lit.value, (int, float)) and not isinstance(lit.value, bool)):
-                        break
-                    txt = ast.get_source_segment(mod.src, lit) or repr(lit.value)
-                    try:
-                        v = mp.mpf(txt.replace("_", ""))
-                    except Exception:
-                        v = mp.mpf(repr(lit.value))
-                    vals.append(-v if neg else v)
-                else:
+            if isinstance(x, (ast.List, ast.Tuple)) and x.elts and (n is None or len(x.elts) == n):
+                vals = [_literal_value(mod, e) for e in x.elts]
+                if all(v is not None for v in vals):
                     seqs.append((vals, "%s:%s" % (mod.relpath, getattr(x, "lineno", "?"))))
+                    inseq.update(id(e) for e in x.elts)
+        if n is None:
+            neg_operands = set()
+            for x in ast.walk(node):
+                if id(x) in inseq or id(x) in neg_operands:
+                    continue
+                v = _literal_value(mod, x)
+                if v is not None:
+                    if isinstance(x, ast.UnaryOp):
+                        neg_operands.add(id(x.operand))
+                    seqs.append(([v], "%s:%s" % (mod.relpath, getattr(x, "lineno", "?"))))
     return seqs
+
+
+def _entry_ties(seqs, psi, st, ct, phi, tiny):
+    """for each selector the literal entries behind the constants it uses, wherever and in whatever layout they are tabulated:
+    psi and phi as written (an entry of some literal sequence), the sine/cosine pair as the same-position entries of two equally long
+    literal sequences whose direction -- the sine possibly negated, as for an inverse rotation derived from the forward one -- is the
+    direction of the pair used (renormalisation only changes the length).  -> [ {name: (value, where)} or None ] per selector"""
+    by_len = {}
+    for sv, wh in seqs:
+        by_len.setdefault(len(sv), []).append((sv, wh, [float(v) for v in sv]))
+    out = []
+    for i in range(len(psi)):
+        row = {}
+        for nm, want in (("psi", psi[i]), ("phi", phi[i])):
+            fw = float(want)
+            for sv, wh in seqs:
+                hit = [v for v in sv if abs(float(v) - fw) < 7 and _circ(v - want) <= tiny]
+                if hit:
+                    row[nm] = (hit[0], wh)
+                    break
+        fs, fc = float(st[i]), float(ct[i])
+        for n_, group in by_len.items():
+            if "stheta" in row:
+                break
+            for sv, wh, fsv in group:
+                if "stheta" in row:
+                    break
+                for cv, wh2, fcv in group:
+                    ks = [k for k in range(n_) if abs(abs(fsv[k]) * fc - fcv[k] * abs(fs)) < 1e-9 and abs(fsv[k] * fs) + fcv[k] * fc > 0.5]
+                    for k in ks:
+                        for sg in (1, -1):
+                            if abs(sg * sv[k] * ct[i] - cv[k] * st[i]) <= tiny and sg * sv[k] * st[i] + cv[k] * ct[i] > mp.mpf("0.5"):
+                                row["stheta"], row["ctheta"] = (sg * sv[k], wh), (cv[k], wh2)
+                                break
+                        if "stheta" in row:
+                            break
+                    if "stheta" in row:
+                        break
+        out.append(row if len(row) == 4 else None)
+    return out
 
 
 def tables(chk, repo, fi, eff):
     """R09.1 on the rotation constants.  eff[(epoch, select)] are the constants euler() actually uses for that selector, read off the
     evaluated output terms (so it does not matter where or how the tables are stored); the literal tables are located through their
-    tie to those constants (an n-th entry of a 6-entry literal sequence for select = n)."""
+    tie to those constants: an n-th entry of a 6-entry literal sequence for select = n, or -- for any other layout (forward rotations
+    only, one row per selector, ...) -- literal entries that are the constants used (up to the renormalisation of the sine/cosine pair)."""
     d2r = mp.pi / 180
     seqs = _literal_tables(repo, fi)
+    allseqs = None
     tiny = mp.mpf("1e-20")
     for ep in ("J2000", "B1950"):
         E = [eff.get((ep, sel)) for sel in range(1, 7)]
@@ -183,14 +414,23 @@ def tables(chk, repo, fi, eff):
             for cv, wh2 in seqs:
                 if "stheta" not in raw and all(abs(sv[i] * ct[i] - cv[i] * st[i]) <= tiny and sv[i] * st[i] + cv[i] * ct[i] > mp.mpf("0.5") for i in range(6)):
                     raw["stheta"], raw["ctheta"] = (sv, wh), (cv, wh2)
-        found = len(raw) == 4
+        if len(raw) == 4:
+            rows = [{k: (v[0][i], v[1]) for k, v in raw.items()} for i in range(6)]
+            desc = "literal tables %s" % ", ".join("%s at %s" % (k, v[1]) for k, v in sorted(raw.items()))
+        else:
+            # another layout: tie the constants of each selector to literal entries one by one
+            if allseqs is None:
+                allseqs = _literal_tables(repo, fi, n=None)
+            rows = _entry_ties(allseqs, psi, st, ct, phi, tiny)
+            desc = "literal entries: " + "; ".join("select=%d: %s" % (i + 1, ", ".join("%s at %s" % (k, v[1]) for k, v in sorted(r.items())) if r else "not located")
+                                                    for i, r in enumerate(rows))
+        found = all(r is not None for r in rows)
         chk.ob("R09.5", "euler[%s]::selector-is-one-based" % ep, True if found else None, fi.where(),
-               "select = n uses the n-th entry of the tabulated psi / stheta / ctheta / phi (literal tables %s)"
-               % (", ".join("%s at %s" % (k, v[1]) for k, v in sorted(raw.items())) if found else "not located: only %s tie to the constants used" % sorted(raw)))
+               "select = n uses the n-th rotation: the psi / stheta / ctheta / phi it uses are the tabulated literals of that rotation (%s)" % desc[:600])
         for i in range(6):
             j = INV[i]
-            if found:
-                rs, rc = raw["stheta"][0][i], raw["ctheta"][0][i]
+            if rows[i] is not None:
+                rs, rc = rows[i]["stheta"][0], rows[i]["ctheta"][0]
                 chk.ob("R09.1", "%s::sel%d::unit-norm" % (ep, i + 1), abs(rs ** 2 + rc ** 2 - 1) <= mp.mpf("1e-9"), fi.where(),
                        "tabulated stheta^2+ctheta^2 = 1 within 1e-9 (deviation %s)" % mp.nstr(rs ** 2 + rc ** 2 - 1, 3))
                 tie = abs(rs - st[i]) <= mp.mpf("1e-10") and abs(rc - ct[i]) <= mp.mpf("1e-10")
@@ -198,7 +438,7 @@ def tables(chk, repo, fi, eff):
                        "the pair used agrees with the tabulated stheta/ctheta within 1e-10 (renormalisation only)")
             else:
                 chk.ob("R09.1", "%s::sel%d::unit-norm" % (ep, i + 1), None, fi.where(),
-                       "tabulated stheta^2+ctheta^2 = 1 within 1e-9: no 6-entry literal tables tie to the constants euler() uses")
+                       "tabulated stheta^2+ctheta^2 = 1 within 1e-9: no literal entries tie to the constants euler() uses for this selector")
             ok = _circ(psi[i] - phi[j]) <= tiny and abs(st[i] + st[j]) <= tiny and abs(ct[i] - ct[j]) <= tiny
             chk.ob("R09.1", "%s::sel%d::inverse-of-sel%d" % (ep, i + 1, j + 1), bool(ok), fi.where(),
                    "selector %d is the inverse rotation of selector %d: psi<->phi exchanged, stheta negated, ctheta equal" % (i + 1, j + 1))
@@ -337,14 +577,20 @@ def _read_constants(ao, bo, ai, bi):
 
 
 def euler_core(chk, repo, fi):
-    se = symx.SymEval(repo)
+    se = _Eval(repo)
     ai, bi = symx.symbols("ai", "bi")
     d2r = sp.pi / 180
     eff = {}
     for ep in ("J2000", "B1950"):
         for sel in range(1, 7):
-            r = se.run(fi, {"ai": ai, "bi": bi, "select": sp.Integer(sel)}, {"b1950": ep == "B1950"})
             tag = "euler[%s,select=%d]" % (ep, sel)
+            try:
+                r = se.run(fi, {"ai": ai, "bi": bi, "select": sp.Integer(sel)}, {"b1950": ep == "B1950"})
+            except (IndexError, KeyError) as e:
+                # the selector (a number) indexes a literal table outside its bounds: the call raises for a documented selector
+                chk.ob("R09.1", "euler::rotation-constants-exist-for-every-selector", False, fi.where(),
+                       "%s: looking up the rotation constants fails (%s: %s)" % (tag, type(e).__name__, e))
+                continue
             if not (isinstance(r, tuple) and len(r) == 2 and all(isinstance(x, sp.Basic) for x in r)):
                 chk.ob("R09.2", tag + "::returns-pair", False, fi.where(), "expected (lon, lat), got %r" % (r,))
                 continue
@@ -393,16 +639,43 @@ def euler_core(chk, repo, fi):
     return eff
 
 
+def _bound_args(call, callee):
+    """{parameter of callee: argument expression} for a call with plain positional and keyword arguments, else None"""
+    if any(isinstance(a, ast.Starred) for a in call.args) or any(k.arg is None for k in call.keywords):
+        return None
+    kwonly = {a.arg for a in callee.node.args.kwonlyargs}
+    pos = [p for p in callee.params if not p.startswith("*") and p not in kwonly]
+    if len(call.args) > len(pos):
+        return None
+    out = dict(zip(pos, call.args))
+    for k in call.keywords:
+        if k.arg in out or k.arg not in [p.lstrip("*") for p in callee.params]:
+            return None
+        out[k.arg] = k.value
+    return out
+
+
 def wrappers(chk, repo):
+    """each wrapper returns euler(...) with its own two coordinates bound to euler's two coordinate parameters in order, the selector
+    parameter bound to the wrapper's number, and its epoch / dtype options bound to euler's -- however the arguments are passed
+    (by position or by keyword, directly or through a single-definition temporary)"""
+    core = repo.func(CO + "euler")
+    p_lon, p_lat, p_sel = core.params[:3]
     for name, sel in WRAPPERS.items():
         fi = repo.func(CO + name)
         chk.analysed_unit(fi.qualname)
         rets = [x for x in walk_no_nested(fi.node) if isinstance(x, ast.Return)]
-        ok = len(rets) == 1 and isinstance(rets[0].value, ast.Call) and call_name(rets[0].value) == "euler"
+        b = None
+        if len(rets) == 1 and rets[0].value is not None:
+            c = rules.expand(rets[0].value, fi.node)
+            d = dotted_name(c.func) if isinstance(c, ast.Call) else None
+            if d and repo.resolve_name(fi.module, d) == core.qualname:
+                b = _bound_args(c, core)
+        ok = b is not None
         if ok:
-            c = rets[0].value
-            ok = [norm(a) for a in c.args[:2]] == fi.params[:2] and len(c.args) >= 3 and norm(c.args[2]) == str(sel)
-            okk = kwarg(c, "b1950") is not None and norm(kwarg(c, "b1950")) == "b1950" and kwarg(c, "dtype") is not None and norm(kwarg(c, "dtype")) == "dtype"
+            ok = [norm(b[p]) if p in b else None for p in (p_lon, p_lat)] == fi.params[:2] and p_sel in b and const_value(b[p_sel]) == sel \
+                and not isinstance(const_value(b[p_sel]), bool)
+            okk = all(o in b and norm(b[o]) == o and o in fi.params for o in ("b1950", "dtype"))
             chk.ob("R09.5", name + "::forwards-epoch-and-dtype", okk, fi.where(), "b1950= and dtype= are forwarded")
         chk.ob("R09.5", name + "::selector", bool(ok), fi.where(), "%s is euler(lon, lat, %d, ...) with its two coordinates in order" % (name, sel))
     # chained = direct is a table property: selectors 5/6 (ec<->gal) must equal the product of 4,1 / 2,3; checked through the
@@ -412,9 +685,11 @@ def wrappers(chk, repo):
 def rotate(chk, repo):
     fi = repo.func(CO + "rotate")
     chk.analysed_unit(fi.qualname)
-    se = symx.SymEval(repo)
+    se = _Eval(repo)
     phi, theta, psi, ra, dec = symx.symbols("phi", "theta", "psi", "ra", "dec")
-    r = se.run(fi, {"phi": phi, "theta": theta, "psi": psi, "ra": ra, "dec": dec}, {}, pins={"is_scalar": False})
+    # array input: the positions have a length (whatever local holds that fact)
+    se.assume = {"call:hasattr": True, "call:isscalar": False}
+    r = se.run(fi, {"phi": phi, "theta": theta, "psi": psi, "ra": ra, "dec": dec}, {})
     if not (isinstance(r, tuple) and len(r) == 2):
         chk.ob("R09.9", "rotate::returns-pair", False, fi.where(), "expected (ra, dec), got %r" % (r,))
         return
@@ -440,15 +715,25 @@ def rotate(chk, repo):
         diff = sp.simplify(rest.args[0] - lon_arg)
         eq = (diff.is_number and sp.simplify(sp.Mod(diff, 2 * sp.pi)) == 0) or symx.equal(rest.args[0], lon_arg)[0]
         chk.ob("R09.9", "rotate::longitude-formula", bool(eq), fi.where(), "ra' formula of the zxz rotation")
-    # scalar in, scalar out
-    cfg = cfg_of(fi)
-    sc = [n for n in cfg.nodes if n.kind == "stmt" and isinstance(n.ast, ast.Assign) and norm(n.ast.value).endswith("_out[0]")]
-    ok = len(sc) == 2 and all(dict(rules.controlling_tests(cfg.view(), n)).get("is_scalar") == "T" for n in sc)
-    chk.ob("R09.9", "rotate::scalar-in-scalar-out", ok, fi.where(), "scalar inputs are returned as scalars (element 0 under is_scalar)")
+    # scalar in, scalar out: evaluated again for a position without a length, the result is element 0 of what array input gives
+    se2 = _Eval(repo)
+    se2.assume = {"call:hasattr": False, "call:isscalar": True}
+    try:
+        r0 = se2.run(fi, {"phi": phi, "theta": theta, "psi": psi, "ra": ra, "dec": dec}, {})
+    except AnalysisError:
+        r0 = None
+    AT = sp.Function("AT")
+    ok = None
+    if isinstance(r0, tuple) and len(r0) == 2 and all(isinstance(x, sp.Basic) for x in r0 + r):
+        if all(x0 == AT(x, 0) for x0, x in zip(r0, r)):
+            ok = True
+        elif all(isinstance(x0, AT) for x0 in r0):
+            ok = False          # an element is taken, but not element 0 of the corresponding array
+    chk.ob("R09.9", "rotate::scalar-in-scalar-out", ok, fi.where(), "scalar inputs are returned as scalars (element 0 of the result for array input)")
 
 
 def unitvec(chk, repo):
-    se = symx.SymEval(repo, opaque={CO + "atbound", CO + "atbound2"})
+    se = _Eval(repo, opaque={CO + "atbound", CO + "atbound2"})
     x, y, z = symx.symbols("x", "y", "z")
     fi = repo.func(CO + "xyz2eq")
     chk.analysed_unit(fi.qualname)
@@ -501,14 +786,22 @@ def _fold_ok(lon, base, full, AT):
         okc = isinstance(c1, sp.Lt) and symx.equal(c1.lhs - c1.rhs, base)[0] or (isinstance(c1, sp.Lt) and c1.rhs == 0 and symx.equal(c1.lhs, base)[0])
         if not okc and isinstance(c1, (sp.Lt, sp.Gt)):
             # sympy may have canonicalised the relation (e.g. atan2(y,x) < 0)
-            okc = sp.simplify(c1.lhs - c1.rhs - base * (1 if isinstance(c1, sp.Lt) else -1)) == 0 or \
-                (base / c1.lhs).is_number if c1.rhs == 0 else False
+            sgn = 1 if isinstance(c1, sp.Lt) else -1
+            ratio = sp.simplify(base / c1.lhs) if c1.rhs == 0 and c1.lhs != 0 else None
+            okc = sp.simplify(c1.lhs - c1.rhs - base * sgn) == 0 or bool(ratio is not None and ratio.is_number and ratio * sgn > 0)
         return bool(eqb and eqw and okc), "one-step wrap by %s where negative" % full
-    return False, "unrecognised fold %s" % str(lon)[:120]
+    if isinstance(lon, sp.Mod) and symx.equal(lon.args[0], base)[0]:
+        # value modulo a positive modulus lies in [0, modulus) and differs from the value by whole multiples of it
+        if sp.simplify(lon.args[1] - full) == 0:
+            return True, "modulo %s" % full
+        return False, "folded modulo %s but a full turn is %s in these units" % (lon.args[1], full)
+    if symx.equal(lon, base)[0]:
+        return False, "the longitude is returned as it comes out of atan2, in (-turn/2, turn): no fold into [0, %s)" % full
+    return None, "unrecognised fold %s" % str(lon)[:120]
 
 
 def sdss(chk, repo):
-    se = symx.SymEval(repo, opaque={CO + "atbound", CO + "atbound2"})
+    se = _Eval(repo, opaque={CO + "atbound", CO + "atbound2"})
     mod = repo.module("esutil.coords")
     par = se.module_const(mod, "_sdsspar")
     ok = isinstance(par, dict) and sp.simplify(par.get("node", 0) - 95 * sp.pi / 180) == 0 and sp.simplify(par.get("etapole", 0) - sp.Rational(65, 2) * sp.pi / 180) == 0
@@ -529,7 +822,7 @@ def sdss(chk, repo):
         chk.ob("R09.7", "eq2sdss::ceta", bool(ok), fi.where(), "ceta = atan2(sin dec, sin(ra-node) cos dec) - etapole in degrees, folded into [-180,180]")
     else:
         chk.ob("R09.7", "eq2sdss::returns-pair", False, fi.where(), "got %r" % (r,))
-    _range_checks(chk, fi, {"ra_in": ("0.0", "360.0"), "dec_in": ("-90.0", "90.0")})
+    _range_checks(chk, repo, fi, {"ra_in": ("0.0", "360.0"), "dec_in": ("-90.0", "90.0")})
     lam, eta = symx.symbols("clambda", "ceta")
     fi = repo.func(CO + "sdss2eq")
     chk.analysed_unit(fi.qualname)
@@ -545,15 +838,33 @@ def sdss(chk, repo):
         dec_core = dec_o.args[0] if isinstance(dec_o, AT2) else dec_o
         eq1, d1 = symx.equal(dec_core, dec_ref)
         chk.ob("R09.7", "sdss2eq::dec", eq1, fi.where(), "dec = asin(sin(ceta+etapole) cos clambda) in degrees")
-        eq2, d2 = symx.equal(ra_o, ra_ref)
+        # the longitude, with the range fold spelled out taken off: ra = 0 where |dec| = 90 (the convention at the poles), atbound(ra, 0, 360)
+        ra_core, lonfold = ra_o, False
+        if isinstance(ra_core, sp.Piecewise) and len(ra_core.args) == 2 and ra_core.args[1][1] == sp.true and ra_core.args[0][0] == 0 \
+                and isinstance(ra_core.args[0][1], sp.Eq):
+            c0 = ra_core.args[0][1]
+            try:
+                q = sp.simplify((c0.lhs - c0.rhs) / (sp.Abs(dec_ref) - 90))
+            except Exception:
+                q = None
+            if q is not None and q.is_number and q != 0:
+                ra_core = ra_core.args[1][0]
+        if isinstance(ra_core, AT) and ra_core.args[1:] == (0, 360):
+            ra_core, lonfold = ra_core.args[0], True
+        eq2, d2 = symx.equal(ra_core, ra_ref)
         if isinstance(dec_o, AT2):
             eq2 = eq2 or symx.equal(dec_o.args[1], ra_ref)[0]
         chk.ob("R09.7", "sdss2eq::ra", eq2, fi.where(), "ra = atan2(cos(ceta+etapole) cos clambda, -sin clambda) + node in degrees")
         folds = [x for x in walk_no_nested(fi.node) if isinstance(x, ast.Call) and call_name(x) == "atbound2"]
-        chk.ob("R09.7", "sdss2eq::range-fold-roles", len(folds) == 1 and [norm(a) for a in folds[0].args] == ["dec", "ra"], fi.where(), "atbound2(latitude, longitude) folds the pair into range")
+        okf = len(folds) == 1 and [norm(a) for a in folds[0].args] == ["dec", "ra"]
+        if not okf and not folds and lonfold and eq1 and eq2 and not isinstance(dec_o, AT2):
+            # the fold of the pair spelled out: the latitude is an arcsine in degrees (within [-90,90] as it is), the longitude is folded into [0,360]
+            okf = True
+        chk.ob("R09.7", "sdss2eq::range-fold-roles", okf, fi.where(),
+               "atbound2(latitude, longitude) folds the pair into range (or, the latitude being an arcsine, the longitude alone is folded into [0,360])")
     else:
         chk.ob("R09.7", "sdss2eq::returns-pair", False, fi.where(), "got %r" % (r,))
-    _range_checks(chk, fi, {"clambda_in": ("-90.0", "90.0"), "ceta_in": ("-180.0", "180.0")})
+    _range_checks(chk, repo, fi, {"clambda_in": ("-90.0", "90.0"), "ceta_in": ("-180.0", "180.0")})
 
 
 def _disjuncts(t):
@@ -568,13 +879,15 @@ _LOW = ("_V.min() < _B", "_B > _V.min()", "np.min(_V) < _B", "min(_V) < _B", "(_
 _HIGH = ("_V.max() > _B", "_B < _V.max()", "np.max(_V) > _B", "max(_V) > _B", "(_V > _B).any()", "np.any(_V > _B)", "any(_V > _B)", "np.amax(_V) > _B")
 
 
-def _range_checks(chk, fi, want):
-    """want: {input parameter: (lo, hi)}.  A raise is reached when the (private copy of the) parameter, not yet converted to radians, has an
-    element below lo, and when it has one above hi -- as one test joined by `|` / `or` or as separate tests."""
+def _raise_guards(fi):
+    """(guards, shown): guards = [(side, parameter, bound)] -- a raise is reached when the parameter (or a fresh array copy of it that has not
+    been updated since it was made) has an element below ('lo') / above ('hi') the bound; the bound is a number, or ('param', name) when
+    it is a parameter of fi that has not been re-assigned"""
     cfg = cfg_of(fi)
     view = cfg.view()
     IN, _ = view.reaching_defs()
-    guards = []          # (side, variable name, bound, branch node)
+    params = [p.lstrip("*") for p in fi.params]
+    found = []
     for n in rules.raise_nodes(cfg):
         for b, lab in view.controlling_branches(n):
             if b.kind != "branch" or lab != "T":
@@ -583,24 +896,108 @@ def _range_checks(chk, fi, want):
                 for side, pats in (("lo", _LOW), ("hi", _HIGH)):
                     for p_ in pats:
                         m = pat.match(p_, d, commutative=False)
-                        if m and isinstance(m["_V"], ast.Name) and const_value(m["_B"]) is not None:
-                            guards.append((side, m["_V"].id, float(const_value(m["_B"])), b))
-    shown = sorted({(s_, v, bd) for s_, v, bd, _ in guards})
+                        if not m:
+                            continue
+                        if const_value(m["_B"]) is not None and not isinstance(const_value(m["_B"]), (str, bool)):
+                            bound = float(const_value(m["_B"]))
+                        elif isinstance(m["_B"], ast.Name) and m["_B"].id in params and IN.get(b.id, {}).get(m["_B"].id, set()) == {cfg.entry.id}:
+                            bound = ("param", m["_B"].id)
+                        else:
+                            continue
+                        found.append((side, m["_V"], bound, b))
+
+    def raw_param(e, at):
+        """the parameter whose value, as passed in, the expression e is at node `at` (the parameter itself or a fresh array copy of it)"""
+        if isinstance(e, ast.Name) and e.id in params and IN.get(at.id, {}).get(e.id, set()) == {cfg.entry.id}:
+            return e.id
+        if isinstance(e, ast.Call) and call_name(e) in symx.IDENTITY_FUNCS and e.args and (isinstance(e.func, ast.Name) or _is_np_name(fi, e.func)):
+            return raw_param(e.args[0], at) if isinstance(e.args[0], ast.Name) else None
+        return None
+
+    guards = []
+    for side, v, bound, b in found:
+        # the tested value is a parameter, or a copy of it that has not been updated since it was made
+        prm = raw_param(v, b)
+        if prm is None and isinstance(v, ast.Name):
+            srcs = IN.get(b.id, {}).get(v.id, set())
+            if len(srcs) == 1:
+                dn = cfg.node(next(iter(srcs)))
+                if dn.kind == "stmt" and isinstance(dn.ast, ast.Assign) and len(dn.ast.targets) == 1 and isinstance(dn.ast.targets[0], ast.Name):
+                    prm = raw_param(dn.ast.value, dn) if isinstance(dn.ast.value, ast.Call) else None
+        if prm is not None:
+            guards.append((side, prm, bound))
+    return guards, sorted({(s_, norm(v)[:40], str(bd)) for s_, v, bd, _ in found})
+
+
+def _is_np_name(fi, f):
+    d = dotted_name(f)
+    return bool(d) and d.split(".")[0] in fi.module.imports and fi.module.imports[d.split(".")[0]].split(".")[0] == "numpy"
+
+
+def _range_guards(repo, fi, depth=2):
+    """[(side, parameter of fi, numeric bound)]: fi's own raise guards, and those of the package helpers the untouched parameter is handed to
+    on every path (a checked-copy helper): the helper's guards on the receiving parameter, with bounds it takes as parameters bound to the
+    numbers written at the call"""
+    own, shown = _raise_guards(fi)
+    out = [(s_, v, b) for s_, v, b in own if not isinstance(b, tuple)]
+    if depth <= 0:
+        return out, shown
+    from vcheck.cfg import stmts_calls
+    cfg = cfg_of(fi)
+    view = cfg.view()
+    IN, _ = view.reaching_defs()
+    params = [p.lstrip("*") for p in fi.params]
+    for n in cfg.nodes:
+        if n.id not in view.reach or n.kind not in ("stmt", "return", "branch"):
+            continue
+        for c in stmts_calls(n):
+            d = dotted_name(c.func)
+            full = repo.resolve_name(fi.module, d) if d else None
+            if not (full and repo.has(full)) or repo.func(full) is fi:
+                continue
+            if rules.controlling_tests(view, n, skip_reject_guards=True):
+                continue                      # a check made on some paths only is not a rejection of every out-of-range input
+            tgt = repo.func(full)
+            b = _bound_args(c, tgt)
+            if b is None:
+                continue
+            sub, subshown = _range_guards_raw(repo, tgt, depth - 1)
+            for q, a in b.items():
+                if not (isinstance(a, ast.Name) and a.id in params and IN.get(n.id, {}).get(a.id, set()) == {cfg.entry.id}):
+                    continue
+                for side, v, bound in sub:
+                    if v != q:
+                        continue
+                    if isinstance(bound, tuple):
+                        arg = b.get(bound[1], tgt.defaults.get(bound[1]))
+                        cv = const_value(arg) if arg is not None else None
+                        if cv is None or isinstance(cv, (str, bool)):
+                            continue
+                        bound = float(cv)
+                    out.append((side, a.id, bound))
+                    shown = sorted(set(shown) | {(side, "%s via %s" % (a.id, tgt.name), str(bound))})
+    return out, shown
+
+
+def _range_guards_raw(repo, fi, depth):
+    """like _range_guards but keeps the bounds that are parameters of fi symbolic"""
+    own, shown = _raise_guards(fi)
+    if depth > 0:
+        more, sh2 = _range_guards(repo, fi, depth)
+        own = own + [g for g in more if g not in own]
+        shown = sorted(set(shown) | set(sh2))
+    return own, shown
+
+
+def _range_checks(chk, repo, fi, want):
+    """want: {input parameter: (lo, hi)}.  A raise is reached when the (private copy of the) parameter, not yet converted to radians, has an
+    element below lo, and when it has one above hi -- as one test joined by `|` / `or` or as separate tests, in the function itself or in a
+    helper the parameter is handed to."""
+    guards, shown = _range_guards(repo, fi)
     for prm, (lo, hi) in want.items():
         got = {}
-        for side, v, bound, b in guards:
-            # the tested variable is the parameter or a copy of it that has not been updated since it was made
-            srcs = IN.get(b.id, {}).get(v, set())
-            ok = False
-            if v == prm and srcs == {cfg.entry.id}:
-                ok = True
-            elif len(srcs) == 1:
-                dn = cfg.node(next(iter(srcs)))
-                if dn.kind == "stmt" and isinstance(dn.ast, ast.Assign) and len(dn.ast.targets) == 1 and isinstance(dn.ast.targets[0], ast.Name) \
-                        and isinstance(dn.ast.value, ast.Call) and call_name(dn.ast.value) in symx.IDENTITY_FUNCS and dn.ast.value.args \
-                        and norm(dn.ast.value.args[0]) == prm:
-                    ok = True
-            if ok:
+        for side, v, bound in guards:
+            if v == prm:
                 got.setdefault(side, set()).add(bound)
         name = prm[:-3] if prm.endswith("_in") else prm
         ok = float(lo) in got.get("lo", ()) and float(hi) in got.get("hi", ())
@@ -756,7 +1153,7 @@ def shift(chk, repo):
     whole turns, and a single 360-degree step must suffice (the shift is reduced modulo 360 first)."""
     fi = repo.func(CO + "shiftlon")
     chk.analysed_unit(fi.qualname)
-    se = symx.SymEval(repo)
+    se = _Eval(repo)
     lon = sp.Symbol("lon", real=True)
     sneg, spos = sp.Symbol("s", negative=True), sp.Symbol("s", nonnegative=True)
     dom = {lon: _Iv(0, True, 360, False), sneg: _Iv(-sp.oo, False, 0, False), spos: _Iv(0, True, sp.oo, False)}
@@ -850,11 +1247,11 @@ def folds(chk, repo):
     test after the body is C of the *updated* value (recomputed each step)."""
     fi = repo.func(CO + "atbound")
     chk.analysed_unit(fi.qualname)
-    se = symx.SymEval(repo)
+    se = _Eval(repo)
     pl, pa, pb = [p for p in fi.params][:3]
     L0 = sp.Symbol("L", real=True)
     a, b = sp.Symbol("minval", real=True), sp.Symbol("maxval", real=True)
-    env = symx.Env(se, fi, fi.module, {pl: L0, pa: a, pb: b}, {})
+    env = _Env(se, fi, fi.module, {pl: L0, pa: a, pb: b}, {})
     found = {}
     unrec = []
     nloop = 0
